@@ -204,7 +204,7 @@ prop("C05", level="other",
                 "should_only ... except, should_not ... except, in both directions. BOUNDED (not proved): 'should' and 'should_only' without except at lemma level (their buckets are proved, the "
                 "missing-access lemma is not), the two 'any layer' aliases, and the COMPOSITION LayerRule.assert_applies -> Rule.assert_applies -> LayerRuleMatcher.match (the layer matcher is "
                 "instantiated through functools.partial; the hypotheses of the lemma -- the converted filters list exactly the modules of the mentioned layers -- are established function by "
-                "function but not composed), LayeredArchitecture.layer_mapping, Rule._add_modules: random layer partitions (name lists, regex, mixed, unmentioned layers, modules in no layer) on "
+                "function but not composed; Rule._add_modules itself -- every listed module keeps its own name / regex kind -- is proved), LayeredArchitecture.layer_mapping: random layer partitions (name lists, regex, mixed, unmentioned layers, modules in no layer) on "
                 "graphs with prefix-named siblings; the real LayerRule outcome is compared with the documented layer semantics for all 12 shapes and the two 'any layer' aliases.",
      level_note=_BND_NOTE + "Assumed in the default view: LayerMapping(dict) yields a mapping whose observers (all_layers, get_module_filters) return the dict's keys / values (proved on the real "
                 "class in the string view; the two views are linked by name, not by proof); the lookup of a mapping never raises LayerMismatch there (disjoint layers).",
